@@ -371,6 +371,29 @@ def do_part(test, ph, part):
                 buf.flush()
             else:
                 stream.write("TOK%dK\n" % tok)
+    if part.get("waitForTest") is not None:
+        # a test that can only go on once a test of another layer (running in another process at the same time) has
+        # started: it watches the trace file for that test's start, for at most 25 seconds
+        want_ = part["waitForTest"]
+        deadline_ = time.time() + 25
+        ok_ = False
+        while time.time() < deadline_ and not ok_:
+            try:
+                with open(TRACE) as f_:
+                    for line_ in f_:
+                        if '"tstart"' in line_:
+                            try:
+                                e_ = json.loads(line_)
+                            except ValueError:
+                                continue
+                            if e_.get("ev") == "tstart" and e_.get("t") == want_:
+                                ok_ = True
+                                break
+            except OSError:
+                pass
+            if not ok_:
+                time.sleep(0.05)
+        trace({"ev": "waited", "t": test.spec["id"], "for": want_, "ok": ok_})
     if part.get("nested"):
         nested_run()
     if part.get("slow"):
